@@ -10,6 +10,14 @@
 // prim_timeout_steal, prim_clock, prim_rotate) and part of the trusted base.  Everything the scheduler itself needs from
 // the OS goes through __real_* (baton = POSIX semaphores).
 //
+// Clock domains: there are two scripted clocks, CLOCK_REALTIME = `now` and every other clock id = now / 3 (a
+// different epoch, like CLOCK_MONOTONIC on a real system).  A virtual condition variable remembers the clock its
+// attribute selected at pthread_cond_init (default CLOCK_REALTIME) and measures deadlines against that clock;
+// sem_timedwait always uses CLOCK_REALTIME.  Code that computes its deadline from another clock than the one
+// the primitive measures against therefore times out at the wrong moment, as it would with glibc.
+// Initialisation: pthread_mutex_init / pthread_cond_init / sem_init (and the destroy calls) are wrapped and
+// recorded; registering a primitive of a library object that was never initialised is reported (vs_uninit).
+//
 // C headers only; C interface in sync_sched.h.
 #include <pthread.h>
 #include <semaphore.h>
@@ -36,6 +44,12 @@ int __real_sem_wait(sem_t*);
 int __real_sem_trywait(sem_t*);
 int __real_sem_timedwait(sem_t*, const struct timespec*);
 int __real_sem_post(sem_t*);
+int __real_pthread_mutex_init(pthread_mutex_t*, const pthread_mutexattr_t*);
+int __real_pthread_mutex_destroy(pthread_mutex_t*);
+int __real_pthread_cond_init(pthread_cond_t*, const pthread_condattr_t*);
+int __real_pthread_cond_destroy(pthread_cond_t*);
+int __real_sem_init(sem_t*, int, unsigned);
+int __real_sem_destroy(sem_t*);
 int __real_pthread_create(pthread_t*, const pthread_attr_t*, void* (*)(void*), void*);
 int __real_pthread_join(pthread_t, void**);
 }
@@ -57,6 +71,8 @@ struct VState {
   long long now;
 };
 static VState S;
+static int cond_clk[VS_NC];                       // clock id each registered condition variable measures deadlines against
+static long long clock_of(int id, long long nowv) { return id == CLOCK_REALTIME ? nowv : nowv / 3; }
 static Call pend[VS_MAXT];
 static long long retv[VS_MAXT];
 static int nthr;
@@ -155,12 +171,12 @@ static void prim_spurious(int t)
 static void prim_timeout(int t)
 {
   TStat& s = S.st[t];
-  if(s.kind == K_CONDBLOCKED && s.has_dl && dl_expired(s.dsec, s.dnsec, S.now)) { remove_tid(s.c, t); s.kind = K_WOKEN; s.rc = ETIMEDOUT; }
+  if(s.kind == K_CONDBLOCKED && s.has_dl && dl_expired(s.dsec, s.dnsec, clock_of(cond_clk[s.c], S.now))) { remove_tid(s.c, t); s.kind = K_WOKEN; s.rc = ETIMEDOUT; }
 }
 static void prim_timeout_steal(int t)
 {
   TStat& s = S.st[t];
-  if(s.kind == K_WOKEN && s.has_dl && dl_expired(s.dsec, s.dnsec, S.now)) s.rc = ETIMEDOUT;
+  if(s.kind == K_WOKEN && s.has_dl && dl_expired(s.dsec, s.dnsec, clock_of(cond_clk[s.c], S.now))) s.rc = ETIMEDOUT;
 }
 static void prim_clock(long long n) { if(n > S.now) S.now = n; }
 static void prim_rotate(int c)
@@ -234,6 +250,28 @@ static void spawn_real(int t, void* (*fn)(void*), void* arg)
 static void* reg_m[VS_NM]; static void* reg_c[VS_NC]; static void* reg_s[VS_NS];
 static int find_in(void** reg, int n, void* a) { for(int i = 0; i < n; ++i) if(reg[i] == a) return i; return -1; }
 
+// ---- which primitives have been initialised (wrapped *_init / *_destroy) ------------------------------------
+struct InitRec { void* addr; char kind; int clk; };
+static InitRec inited[64]; static int inited_next;
+static int uninit_mask;                            // bit k: k-th registered primitive of the case was never initialised
+static void note_init(void* a, char kind, int clk)
+{
+  for(int i = 0; i < 64; ++i) if(inited[i].addr == a) { inited[i].kind = kind; inited[i].clk = clk; return; }
+  inited[inited_next].addr = a; inited[inited_next].kind = kind; inited[inited_next].clk = clk;
+  inited_next = (inited_next + 1) % 64;
+}
+static int note_destroy(void* a)                   // 0: was never initialised (the real destroy must not touch it)
+{
+  int found = 0;
+  for(int i = 0; i < 64; ++i) if(inited[i].addr == a) { inited[i].addr = 0; found = 1; }
+  return found;
+}
+static const InitRec* find_init(void* a, char kind)
+{
+  for(int i = 0; i < 64; ++i) if(inited[i].addr == a && inited[i].kind == kind) return &inited[i];
+  return 0;
+}
+
 // ---- capture mode -------------------------------------------------------------------------------------
 static int capture_on, captured;
 static long long cap_sec, cap_nsec, got_sec, got_nsec;
@@ -242,7 +280,9 @@ extern "C" {
 
 void vs_reset(int n)
 {
-  if(!sems_ready) { for(int i = 0; i < VS_MAXT; ++i) sem_init(&go[i], 0, 0); sem_init(&ctl, 0, 0); sems_ready = 1; }
+  if(!sems_ready) { for(int i = 0; i < VS_MAXT; ++i) __real_sem_init(&go[i], 0, 0); __real_sem_init(&ctl, 0, 0); sems_ready = 1; }
+  for(int i = 0; i < VS_NC; ++i) cond_clk[i] = CLOCK_REALTIME;
+  uninit_mask = 0;
   memset(&S, 0, sizeof(S));
   for(int m = 0; m < VS_NM; ++m) S.mtx[m].owner = -1;
   for(int t = 0; t < VS_MAXT; ++t) { S.st[t].kind = K_NOTSTARTED; pend[t].kind = C_IDLE; retv[t] = 0; real_started[t] = 0; real_joined[t] = 0; real_finished[t] = 0; }
@@ -255,11 +295,24 @@ void vs_reset(int n)
 void vs_reg_mutex(void* a, int idx)
 {
   reg_m[idx] = a;
+  if(!find_init(a, 'm')) uninit_mask |= 1 << idx;
   int kind = ((pthread_mutex_t*)a)->__data.__kind & 127;       // glibc: the type given by the attribute
   S.mtx[idx].rec = kind == PTHREAD_MUTEX_RECURSIVE;
 }
-void vs_reg_cond(void* a, int idx) { reg_c[idx] = a; }
-void vs_reg_sem(void* a, int idx) { reg_s[idx] = a; int v = 0; sem_getvalue((sem_t*)a, &v); S.sem[idx] = v; }
+void vs_reg_cond(void* a, int idx)
+{
+  reg_c[idx] = a;
+  const InitRec* r = find_init(a, 'c');
+  if(r) cond_clk[idx] = r->clk; else uninit_mask |= 1 << (VS_NM + idx);
+}
+void vs_reg_sem(void* a, int idx)
+{
+  reg_s[idx] = a;
+  if(!find_init(a, 's')) { uninit_mask |= 1 << (VS_NM + VS_NC + idx); S.sem[idx] = 0; return; }
+  int v = 0; sem_getvalue((sem_t*)a, &v); S.sem[idx] = v;
+}
+int vs_uninit(void) { return uninit_mask; }
+int vs_cond_clock(int idx) { return cond_clk[idx]; }
 void vs_spawn(int t, void* (*fn)(void*), void* arg) { S.st[t].kind = K_RUN; spawn_real(t, fn, arg); }
 
 void vs_teardown(void)
@@ -271,8 +324,8 @@ void vs_teardown(void)
       __real_pthread_join(real_thr[t], 0);
       real_joined[t] = 1;
     }
-  for(int i = 0; i < VS_MAXT; ++i) { sem_destroy(&go[i]); sem_init(&go[i], 0, 0); }
-  sem_destroy(&ctl); sem_init(&ctl, 0, 0);
+  for(int i = 0; i < VS_MAXT; ++i) { __real_sem_destroy(&go[i]); __real_sem_init(&go[i], 0, 0); }
+  __real_sem_destroy(&ctl); __real_sem_init(&ctl, 0, 0);
   for(int i = 0; i < VS_NM; ++i) reg_m[i] = 0;
   for(int i = 0; i < VS_NC; ++i) reg_c[i] = 0;
   for(int i = 0; i < VS_NS; ++i) reg_s[i] = 0;
@@ -329,7 +382,14 @@ int vs_runnable_or_blocked(int t) { return S.st[t].kind != K_NOTSTARTED && S.st[
 int vs_timed(int t, long long* sec, long long* nsec)
 {
   const TStat& s = S.st[t];
-  if(s.kind == K_CONDBLOCKED && s.has_dl) { *sec = s.dsec; *nsec = s.dnsec; return 1; }
+  if(s.kind == K_CONDBLOCKED && s.has_dl) {
+    *sec = s.dsec; *nsec = s.dnsec;
+    if(cond_clk[s.c] != CLOCK_REALTIME) {          // the instant of `now` at which clock_of(...) reaches the deadline
+      __int128 tot = ((__int128)s.dsec * NSQ + s.dnsec) * 3;
+      *sec = (long long)(tot / NSQ); *nsec = (long long)(tot % NSQ);
+    }
+    return 1;
+  }
   if(s.kind == K_RUN && pend[t].kind == C_SEMWAIT && pend[t].has_dl && dl_valid(pend[t].dnsec)) { *sec = pend[t].dsec; *nsec = pend[t].dnsec; return 1; }
   return 0;
 }
@@ -379,7 +439,8 @@ void vs_fmt_prims(char* buf, int cap)
     if(S.qn[c] == 0) n += snprintf(buf + n, cap - n, "-");
     for(int i = 0; i < S.qn[c]; ++i) n += snprintf(buf + n, cap - n, "%s%d", i ? "," : "", S.q[c][i]);
   }
-  snprintf(buf + n, cap - n, " now=%lld", S.now);
+  n += snprintf(buf + n, cap - n, " now=%lld", S.now);
+  for(int c = 0; c < VS_NC; ++c) if(cond_clk[c] != CLOCK_REALTIME) n += snprintf(buf + n, cap - n, " clk%d=%d", c, cond_clk[c]);
 }
 
 void vs_capture(int on, long long sec, long long nsec) { capture_on = on; cap_sec = sec; cap_nsec = nsec; captured = 0; }
@@ -388,8 +449,12 @@ int vs_captured(long long* sec, long long* nsec) { *sec = got_sec; *nsec = got_n
 // ---- scripted clock (E5: the executable's definition interposes libc for the statically linked libnstd) ----
 int clock_gettime(clockid_t id, struct timespec* ts)
 {
-  if(capture_on && cur_tid < 0) { ts->tv_sec = (time_t)cap_sec; ts->tv_nsec = (long)cap_nsec; return 0; }
-  if(cur_tid >= 0) { ts->tv_sec = (time_t)(S.now / NSQ); ts->tv_nsec = (long)(S.now % NSQ); return 0; }
+  if(capture_on && cur_tid < 0) {
+    if(id == CLOCK_REALTIME) { ts->tv_sec = (time_t)cap_sec; ts->tv_nsec = (long)cap_nsec; return 0; }
+    long long v = (long long)(((__int128)cap_sec * NSQ + cap_nsec) / 3);       // another clock: another epoch
+    ts->tv_sec = (time_t)(v / NSQ); ts->tv_nsec = (long)(v % NSQ); return 0;
+  }
+  if(cur_tid >= 0) { long long v = clock_of((int)id, S.now); ts->tv_sec = (time_t)(v / NSQ); ts->tv_nsec = (long)(v % NSQ); return 0; }
   typedef int (*fn_t)(clockid_t, struct timespec*);
   static fn_t real;
   if(!real) real = (fn_t)dlsym(RTLD_NEXT, "clock_gettime");
@@ -454,6 +519,29 @@ int __wrap_pthread_cond_broadcast(pthread_cond_t* c)
   if((i = find_in(reg_c, VS_NC, c)) < 0) return __real_pthread_cond_broadcast(c);
   return (int)do_call(cur_tid, mk(C_BCAST, i, 0, 0));
 }
+int __wrap_pthread_mutex_init(pthread_mutex_t* m, const pthread_mutexattr_t* a)
+{
+  int rc = __real_pthread_mutex_init(m, a);
+  if(rc == 0) note_init(m, 'm', 0);
+  return rc;
+}
+int __wrap_pthread_mutex_destroy(pthread_mutex_t* m) { return note_destroy(m) ? __real_pthread_mutex_destroy(m) : 0; }
+int __wrap_pthread_cond_init(pthread_cond_t* c, const pthread_condattr_t* a)
+{
+  int rc = __real_pthread_cond_init(c, a);
+  clockid_t ck = CLOCK_REALTIME;
+  if(a) pthread_condattr_getclock(a, &ck);
+  if(rc == 0) note_init(c, 'c', (int)ck);
+  return rc;
+}
+int __wrap_pthread_cond_destroy(pthread_cond_t* c) { return note_destroy(c) ? __real_pthread_cond_destroy(c) : 0; }
+int __wrap_sem_init(sem_t* s, int pshared, unsigned v)
+{
+  int rc = __real_sem_init(s, pshared, v);
+  if(rc == 0) note_init(s, 's', 0);
+  return rc;
+}
+int __wrap_sem_destroy(sem_t* s) { return note_destroy(s) ? __real_sem_destroy(s) : 0; }
 static int sem_result(long long r) { if(r != 0) { errno = (int)r; return -1; } return 0; }
 int __wrap_sem_wait(sem_t* s)
 {
